@@ -439,8 +439,10 @@ def isolation_test(uni, rng, idx, nobj=5, cfgs=None):
         s = g.slot()
         if x < 0.25:
             ops.append({"op": "mutate", "what": "ret", "slot": s})
-        elif x < 0.4:
+        elif x < 0.33:
             ops.append({"op": "mutate", "what": "all", "slot": 0})
+        elif x < 0.4:
+            ops.append({"op": "mutate", "what": "search", "slot": 0})
         elif x < 0.65:
             ops.append({"op": "mutate", "what": "share", "slot": s, "n": k})
         elif x < 0.8:
@@ -533,7 +535,8 @@ def damage_tests(uni, rng, limit=None, nslots=3):
                         ops = [{"op": "put", "slot": s, "o": {"K": 6 + s, "A": 4 + s % 2, "O": 3 * (s % 2), "pl": s}} for s in slots]
                         if nobj and (idx % 3 == 0):
                             ops.append({"op": "put", "slot": 1, "o": {"K": 6 + 1, "A": 6, "pl": 2}})   # an update: index entry moved
-                        d = {"rm": rm, "unindex": un, "rmschema": rms, "add": [{"K": 12 + j, "A": 4 + j, "O": 2 * j, "pl": 3 + j} for j in range(add)]}
+                        d = {"rm": rm, "unindex": un, "rmschema": rms, "add": [{"K": 12 + j, "A": 4 + j, "O": 2 * j, "pl": 3 + j} for j in range(add)],
+                             "first": "create" if idx % 2 else "schema"}
                         ops.append({"op": "damage", "damage": d})
                         # life goes on after the repair
                         ops.append({"op": "put", "slot": 9, "o": {"K": 16, "A": 5}})
